@@ -47,7 +47,7 @@ def setup():
     return 0
 
 
-from . import checks2, checks3, checks4
+from . import checks2, checks3, checks4, checks5
 
 EXTRA = {
     'C03': lambda tier, seed: checks2.run_ledger_check('C03', tier, seed),
@@ -56,9 +56,10 @@ EXTRA = {
     'C13': checks3.run_c13,
     'C15': checks4.run_c15,
     'C16': checks4.run_c16,
+    'C20': checks5.run_c20,
 }
-REPLAY = {'c13': checks3.replay_c13, 'memcheck': checks.replay_memcheck, 'c15': checks4.replay_c15}
-SETUP = [checks2.setup, checks3.setup, checks4.setup]
+REPLAY = {'c13': checks3.replay_c13, 'memcheck': checks.replay_memcheck, 'c15': checks4.replay_c15, 'c20': checks5.replay_c20, 'c20poly': checks5.replay_c20}
+SETUP = [checks2.setup, checks3.setup, checks4.setup, checks5.setup]
 
 
 def claimed():
